@@ -22,7 +22,7 @@ const (
 func init() {
 	register(&PropDef{
 		ID: "C03", Level: "exploration", Quick: 1800, Thorough: 21000, QuickCap: 110,
-		Rule: "row-set part: a table holding a drawn subset of the adversarial keys {a, a\\0, a\\0\\0, ab, b, \\0, \\xff} plus 0-400 filler rows with a drawn number of cells (results span 1..several messages); 60 RowSets per run from the finite space {<=2 ranges x bound in {unset, open, closed} x 7 keys} x {no key, one key} x engine = 1220424 items visited by seeded permutation (the thorough tier consumes it completely), plus random larger sets (duplicates, overlaps, adjacency, inverted); rows_limit in {0,1,2,5,10^6}; optionally a row-dropping filter; result compared with the row-set model and decoded with the ReadRows chunk state machine. sample part: SampleRowKeys after histories with deletes, family drops, rule-less read-modify-writes, with the sampler's draws taken from the rng stream; distinct = hash of (engine, row sets / shapes); non-trivial = a read whose result differs from the whole table",
+		Rule: "row-set part: a table holding a drawn subset of the adversarial keys {a, a\\0, a\\0\\0, ab, b, \\0, \\xff} plus 0-400 filler rows with a drawn number of cells (results span 1..several messages); 60 RowSets per run from the finite space {<=2 ranges x bound in {unset, open, closed} x 7 keys} x {no key, one key} x engine = 1220424 items visited by seeded permutation (the thorough tier consumes it completely), plus random larger sets (duplicates, overlaps, adjacency, inverted); rows_limit in {0,1,2,5,10^6} and n/3, n/2, 3n/4, n-1, n for n stored rows; optionally a row-dropping filter; result compared with the row-set model and decoded with the ReadRows chunk state machine. sample part: SampleRowKeys after histories with deletes, family drops, rule-less read-modify-writes, with the sampler's draws taken from the rng stream; distinct = hash of (engine, row sets / shapes); non-trivial = a read whose result differs from the whole table",
 		Real: []string{"bttest ReadRows, validateRowRanges, mergeRowRanges/mergeSimpleRanges, chunkBuilder, SampleRowKeys, all engines' range iteration"},
 		Stub: []string{"gRPC stream (recording stream)", "the key sampler's random source (rng stream)"},
 		Assume: []string{"empty row keys and empty-key bounds are not sent", "start == end with an open bound is an empty range, not an error"},
@@ -118,7 +118,15 @@ func runC03(r *Run) {
 	dropF := &btpb.RowFilter{Filter: &btpb.RowFilter_FamilyNameRegexFilter{FamilyNameRegexFilter: string(registerRx(&rx{kind: rxCat, subs: []*rx{{kind: rxLit, b: 'f'}, {kind: rxLit, b: '2'}}}))}}
 	dropF2 := &btpb.RowFilter{Filter: &btpb.RowFilter_CellsPerRowOffsetFilter{CellsPerRowOffsetFilter: 2}}
 	r.Mix(engine)
-	limits := []int64{0, 1, 2, 5, 1000000}
+	// limits: small constants, "no limit", and limits relative to the number of stored rows (so
+	// that the cut falls after any number of response messages, wherever the server flushes)
+	n := int64(len(all))
+	limits := []int64{0, 1, 2, 5, 1000000, n / 2, n - 1, n, n * 3 / 4, n / 3}
+	for i := range limits {
+		if limits[i] < 0 {
+			limits[i] = 0
+		}
+	}
 	nItems := 60
 	if nFill >= 400 {
 		nItems = 12
@@ -188,7 +196,7 @@ func runC03(r *Run) {
 		r.Visit("c03.rowsets", it*3+r.Index%3)
 		rs := c03RowSet(it)
 		dd := record(r.T.S("prog.0"), 4)
-		limit := limits[dd.w(6, 2, 2, 1, 1)]
+		limit := limits[dd.w(6, 2, 2, 1, 1, 1, 1, 1, 1, 1)]
 		var f *btpb.RowFilter
 		switch dd.n(6) {
 		case 0:
@@ -234,7 +242,7 @@ func runC03(r *Run) {
 		case 1:
 			f = dropF2
 		}
-		if !check(rs, limits[dd.n(5)], f, "random") {
+		if !check(rs, limits[dd.n(10)], f, "random") {
 			return
 		}
 	}
